@@ -335,7 +335,7 @@ func checkC15(w *World, r *Report) {
 		// the mutex of the table of all DNS peers (a mutex field of the listener object), or of a server object
 		return strings.HasSuffix(fieldOwner(m), ".ServerDnsListener") || strings.HasPrefix(fieldOwner(m), "server.")
 	}, "every other peer that needs this lock (new sessions, closes, the pruner) waits as long as this one peer chooses")
-	r.Rule("R15.8", "a listener's accept loop is left only on the server's shutdown flag or a closed listener, never on a classification of an Accept error", 2)
+	r.Rule("R15.8", "a listener's accept loop is left only on the server's shutdown flag or a closed listener, never on a classification of an Accept error", 1)
 	c15ListenerLoopSurvivesAcceptErrors(w, r)
 	r.Rule("R15.7", "no byte sequence of one peer's handshake can panic the process that serves all the others: every index / slice expression of the handshake parsers is proven in bounds", 2)
 	ruleHandshakeBounds(w, r, "R15.7")
@@ -719,8 +719,8 @@ func ruleFreshCopyBuffers(w *World, r *Report, rule string) {
 
 // ruleSharedSessionClosers: who may close Upstreams.connection / .session.
 func ruleSharedSessionClosers(w *World, r *Report, rule string) {
-	ups := w.Named("internal/client/upstream", "Upstreams")
-	connF, sessF := fieldOf(ups, "connection"), fieldOf(ups, "session")
+	_ = w.Named("internal/client/upstream", "Upstreams")
+	_, connF, sessF := upstreamsSharedFields(w)
 	if connF == nil || sessF == nil {
 		r.Undecided(rule, "type:client/upstream.Upstreams", "-", "anchor unresolved")
 		return
